@@ -629,8 +629,9 @@ class Tree:
                     )
                 ),
             }
-
-        json.dump(res, target, indent=None, separators=(",", ":"))
+            # Also write inside the critical section: entries may reference
+            # mutable objects of the tree (e.g. a mapper that stores `node.meta`)
+            json.dump(res, target, indent=None, separators=(",", ":"))
         return
 
     @classmethod
